@@ -8,7 +8,7 @@ EXTENDS AssetCache, Json
 CONSTANTS Ops,      \* the calls the client may make in this world (records)
           N         \* behaviour length
 VARIABLE hist
-gvars == <<env, graph, toReload, evq, mode, ver, handled, d8, last, hist>>
+gvars == <<env, graph, toReload, evq, mode, ver, handled, d8, od, last, hist>>
 
 Snap(E) == {[ty |-> k.ty, id |-> k.id, val |-> E.cache[k].val, rid |-> E.cache[k].rid, dyn |-> E.cache[k].dyn]
               : k \in {x \in Keys : E.cache[x] # None}}
@@ -18,6 +18,10 @@ SrcList(E) == {[id |-> f[1], ext |-> f[2], c |-> E.src[f]] : f \in {g \in Files 
 
 World(E) == [op |-> "world", scripts |-> ScriptList, src |-> SrcList(E), dirs |-> InitDirs,
              hasR |-> HasReloader, keys |-> Keys]
+
+(* the dependency graph as the reloader knows it: registered assets and their deps *)
+GraphView(g) == {[ty |-> d.ty, id |-> d.id, deps |-> g[d].deps] : d \in {x \in DOMAIN g : x.k = "asset" /\ g[x].typ}}
+NoView == {[none |-> TRUE]}
 
 Do(o) ==
     CASE o.op = "load"     -> Load(o.k)
@@ -43,7 +47,8 @@ GInit == Init /\ hist = <<World(env)>>
 
 GNext == /\ Len(hist) <= N
          /\ \E o \in Ops : Do(o)
-         /\ hist' = Append(hist, [step |-> last', snap |-> Snap(env'), d8 |-> d8'])
+         /\ hist' = Append(hist, [step |-> last', snap |-> Snap(env'), d8 |-> d8', od |-> od',
+                                g |-> IF last'.op \in {"notify", "sync"} THEN GraphView(graph') ELSE NoView])
 
 GSpec == GInit /\ [][GNext]_gvars
 
